@@ -213,6 +213,13 @@ fn workloads(prop: &str, thorough: bool) -> Vec<Work> {
             exh(&mut w, exhaustive::Phase::Faults);
         }
         "C10" => {
+            // a rejected output change (EphemeralChangedOutput) followed by failures / an abort in the same evaluation
+            for (conv, fam, n) in [(Plain, ValidatedEph, 4000u64), (Stamped, ValidatedEph, 2000), (Plain, EphChain, 2000)] {
+                let mut c = ChainCfg::new(conv, fam, 4);
+                c.inject = true;
+                c.inject_with_faults = true;
+                w.push(Work::Chains { cfg: c, n: n * k });
+            }
             // large graphs (subprocesses): the lean driver checks progress / materialised inputs / quiescence after abort there too
             w.push(Work::Sweep { thorough: false });
             w.push(chains(Plain, AbortOffered, 7, 16000 * k));
@@ -293,6 +300,13 @@ fn workloads(prop: &str, thorough: bool) -> Vec<Work> {
             w.push(Work::Meta { family: LateFail, maxn: 4, n: 4000 * k });
         }
         "C16" => {
+            // a rejected output change (EphemeralChangedOutput) followed by failures / an abort in the same evaluation
+            for (conv, fam, n) in [(Plain, ValidatedEph, 4000u64), (Stamped, ValidatedEph, 2000), (Plain, EphChain, 2000)] {
+                let mut c = ChainCfg::new(conv, fam, 4);
+                c.inject = true;
+                c.inject_with_faults = true;
+                w.push(Work::Chains { cfg: c, n: n * k });
+            }
             w.push(bridge(Stamped, ValidatedEph, 4, 800 * k, true, false));
             w.push(bridge(Plain, ValidatedEph, 4, 600 * k, true, false));
             w.push(bridge(Prod, ValidatedEph, 4, 600 * k, true, false));
@@ -306,6 +320,13 @@ fn workloads(prop: &str, thorough: bool) -> Vec<Work> {
             w.push(chains(Stamped, ValidatedEph, 4, 8000 * k));
         }
         "C17" => {
+            // a rejected output change (EphemeralChangedOutput) followed by failures / an abort in the same evaluation
+            for (conv, fam, n) in [(Plain, ValidatedEph, 4000u64), (Stamped, ValidatedEph, 2000), (Plain, EphChain, 2000)] {
+                let mut c = ChainCfg::new(conv, fam, 4);
+                c.inject = true;
+                c.inject_with_faults = true;
+                w.push(Work::Chains { cfg: c, n: n * k });
+            }
             w.push(chains(Plain, Random, 8, 12000 * k));
             w.push(chains(Plain, LateFail, 4, 20000 * k));
             w.push(chains(Plain, EphFail, 4, 6000 * k));
